@@ -1,0 +1,18 @@
+//go:build verif
+
+package iobroker
+
+import (
+	"context"
+	"sync/atomic"
+)
+
+// VerifPoint, if set, is called at named points in connect (admit, release,
+// done), always outside b.mu.  It exists only for verification harnesses.
+var VerifPoint atomic.Pointer[func(ctx context.Context, point, dir, key string)]
+
+func verifPoint(ctx context.Context, point string, dir sDirection, key string) {
+	if f := VerifPoint.Load(); nil != f {
+		(*f)(ctx, point, string(dir), key)
+	}
+}
